@@ -1,0 +1,45 @@
+//go:build verif
+
+// Package verifhook exposes observation points for the external verification harness.
+//
+// It is only active with the "verif" build tag. Without the tag, every function is an empty no-op.
+package verifhook
+
+import "sync/atomic"
+
+// Event is what a hook reports to the sink.
+type Event struct {
+	Kind string      // "loop", "phase", "enter", "leave"
+	Site string      // name of the instrumented site
+	Doc  interface{} // document being processed (phase events only)
+}
+
+var sink atomic.Pointer[func(Event)]
+
+// SetSink installs (or, with nil, removes) the function receiving events.
+func SetSink(f func(Event)) {
+	if f == nil {
+		sink.Store(nil)
+
+		return
+	}
+	sink.Store(&f)
+}
+
+func emit(e Event) {
+	if f := sink.Load(); f != nil {
+		(*f)(e)
+	}
+}
+
+// Loop reports one iteration of a loop expected to reach a fixpoint.
+func Loop(site string) { emit(Event{Kind: "loop", Site: site}) }
+
+// Phase reports the end of a processing phase, with the document in its current state.
+func Phase(name string, doc interface{}) { emit(Event{Kind: "phase", Site: name, Doc: doc}) }
+
+// Enter reports that a recursive function has been entered.
+func Enter(site string) { emit(Event{Kind: "enter", Site: site}) }
+
+// Leave reports that a recursive function has been left.
+func Leave(site string) { emit(Event{Kind: "leave", Site: site}) }
